@@ -202,6 +202,41 @@ def workarray_fails(case):
     return None
 
 
+def workarray_ndarray_fails(case):
+    """the same hand-wrapped work array in a graph recorded and evaluated in plain NumPy arithmetic (Function(ndarray)): every
+    call of cg.function over a history of points returns the program value (p + p^2)^2 of ITS point"""
+    x0 = np.array(case['rec'], dtype=float)
+    cg = algopy.CGraph()
+    fx = algopy.Function(x0.copy())
+    acc = algopy.Function(np.zeros((2,) + x0.shape)[0] if case.get('nonowning') else np.zeros(x0.shape))
+    if case['form'] == 'iadd':
+        acc += fx
+        acc += fx * fx
+    elif case['form'] == 'view-iadd':
+        lo, hi = acc[:1], acc[1:]
+        lo += fx[:1]
+        hi += fx[1:]
+        acc += fx * fx
+    else:
+        acc[...] = acc + fx
+        acc[...] = acc + fx * fx
+    fy = acc * acc
+    cg.trace_off()
+    cg.independentFunctionList = [fx]
+    cg.dependentFunctionList = [fy]
+    for k, pt in enumerate(case['pts']):
+        pt = np.array(pt, dtype=float)
+        try:
+            y = np.array(cg.function([pt.copy()])[0], dtype=float)
+        except Exception as ex:
+            return 'workarray-ndarray-exception: call %d raised %s' % (k + 1, type(ex).__name__ + ':' + str(ex)[:60])
+        want = (pt + pt * pt) ** 2
+        if y.shape != want.shape or not close(y, want, 1e-10):
+            return 'workarray-ndarray: call %d of cg.function on a graph recorded with plain arrays differs from the program value at its point (max diff %s)' % (
+                k + 1, maxdiff(y, want))
+    return None
+
+
 def workarray_results_fail(case):
     """the dependent variable IS a work array wrapped by hand (F(x) = (x0 x1, x1 x2, x2 x0) written entry by entry): what a call
     returned stays what it was when later calls are made (results are values, not windows into the graph's storage)"""
@@ -386,6 +421,8 @@ def replay_case(ctx, case):
         return workarray_fails(case)
     if case.get('op') == 'workarray-results':
         return workarray_results_fail(case)
+    if case.get('op') == 'workarray-ndarray':
+        return workarray_ndarray_fails(case)
     if case.get('op') == 'workarray-model':
         return workarray_model_mismatch(ctx, case)
     return history_fails(case)
@@ -408,6 +445,15 @@ def run(ctx):
             ctx.evaluations += 1
             ctx.count('hand-wrapped-work-array')
             f = workarray_fails(case)
+            if f:
+                ctx.report(case, 'failure', f)
+    for form in ('iadd', 'setitem', 'view-iadd'):
+        for nonowning in (False, True):
+            pts = [rand_coeffs(rng, (3,), -2, 2) for _ in range(3)]
+            case = {'op': 'workarray-ndarray', 'form': form, 'nonowning': nonowning, 'rec': rand_coeffs(rng, (3,), -2, 2), 'pts': pts + [pts[0]]}
+            ctx.evaluations += 1
+            ctx.count('hand-wrapped-work-array-ndarray')
+            f = workarray_ndarray_fails(case)
             if f:
                 ctx.report(case, 'failure', f)
     for i in range(3):
